@@ -1204,6 +1204,35 @@ func sessionLifetime(res *core.Result, r *rand.Rand, runs int) {
 		}
 		res.Count(fmt.Sprintf("session_lifetime_histories:keys=%v", withKeys), 1)
 		res.Case(fmt.Sprintf("session-lifetime|%v|%d", withKeys, run), true)
+		// And beyond the idle lifetime: nobody uses the session for longer than that (1 min without keys, 1 h with), the
+		// cleaner ticks, the session object goes - and with it everything the router knew about what it had accepted.
+		// "At most once" has no time limit in the statement: the frames accepted before are delivered once more.
+		idle := 3 * time.Minute
+		if withKeys {
+			idle = 2 * time.Hour
+		}
+		a.StateV.VerifAdvanceTime(idle)
+		b.StateV.VerifAdvanceTime(idle)
+		a.StateV.VerifHousekeeping()
+		b.StateV.VerifHousekeeping()
+		reported := map[string]bool{}
+		for _, x := range all {
+			st := x.at.StateV.GetSession(x.from.IdentityV.IP)
+			if st == nil {
+				continue
+			}
+			if err := unsealAt(x.at, st, x.data); err == nil {
+				class := "encrypted"
+				if mt := frame.MessageType(x.data[4]); !mt.IsEncrypted() {
+					class = "signed"
+				}
+				if !reported[class] {
+					reported[class] = true
+					res.Violate("session-lifetime:"+class+"-frame-accepted-again-after-the-idle-session-was-dropped", fmt.Sprintf("after %s without any use of the session and a cleaner tick, the frame of step '%s' (accepted before) unsealed a second time", idle, x.desc), map[string]any{"step": x.desc, "case_id": "lifetime-idle"})
+				}
+			}
+		}
+		res.Count("idle_beyond_lifetime_replay_rounds", 1)
 	}
 }
 
